@@ -238,6 +238,10 @@ def lemma_keypath_roundtrip(E):
     b = E.fresh_seq("b", "bytes", "int")
     b.rng = (0, 1)
     E.assume(mk_bool(allbit(b.t)))
+    # case split on |b| mod 8 with an explicit quotient, so that the length obligations below are linear
+    m = z3.Int("m!len")
+    c = E.choose([mk_bool(z3.Length(b.t) % 8 == r) for r in range(8)])
+    E.assume(mk_bool(z3.And(m >= 0, z3.Length(b.t) == 8 * m + c)))
     enc_f = find_function(E.loader, MOD + ":encode_from_bin_keypath")
     dec_f = find_function(E.loader, MOD + ":decode_to_bin_keypath")
     E.inline = {MOD + ":encode_from_bin_keypath", MOD + ":decode_to_bin_keypath"}
